@@ -451,6 +451,24 @@ func TestC11Deterministic(t *testing.T) {
 			copy(l, permuteStrings(t, l, "inplace-reldata-"+k, &changed3))
 		}
 
+		// ... and so were the to-many lists the resources hand out (Get): the
+		// same IDs in another order.
+		if p := oracle.Try(func() {
+			for i, m := range append(append([]gen.ResModel{}, c.Primary...), c.Included...) {
+				for _, rel := range m.TS.Rels {
+					if rel.ToOne {
+						continue
+					}
+
+					if l, ok := m.Res.Get(rel.FromName).([]string); ok && len(l) > 1 {
+						copy(l, permuteStrings(t, l, fmt.Sprintf("inplace-ids-%d-%s", i, rel.FromName), &changed3))
+					}
+				}
+			}
+		}); p != nil {
+			t.Fatalf("C11 violated: reading the to-many lists of the resources: %s\ncase: %s", p, c)
+		}
+
 		if p := oracle.Try(func() { out3, err3 = jsonapi.MarshalDocument(c.Doc, c.URL) }); p != nil {
 			t.Fatalf("C11 violated: %s (after permuting in place)\ncase: %s", p, c)
 		}
